@@ -139,7 +139,23 @@ def _call(args):
     try:
         mod = importlib.import_module(modname)
         return mod.run_unit(unit)
-    except Exception:  # a harness crash must be loud, never a silent pass
+    except Exception as e:
+        # An exception that escaped while LIBRARY code was on the stack means the implementation
+        # raised on an input of the explored space: that is a property failure (no answer was given),
+        # reported with the unit as replay.  Anything else is a harness crash: loud, exit 2.
+        import pickle
+
+        tb = traceback.extract_tb(e.__traceback__)
+        lib = os.path.realpath(REPO) + os.sep
+        if any(os.path.realpath(fr.filename).startswith(lib) for fr in tb):
+            res = new_result()
+            where = [f"{os.path.relpath(fr.filename, REPO)}:{fr.lineno}" for fr in tb if os.path.realpath(fr.filename).startswith(lib)][-1]
+            res["violations"].append(violation(
+                getattr(mod, "PROPERTY", "?"), {"kind": "implementation-raised", "exc": type(e).__name__},
+                {"mode": "unit-crash", "module": modname, "unit_pickle": pickle.dumps(unit).hex()}, "an answer", repr(e)[:200],
+                f"the implementation raised {e!r} at {where} while exploring unit {repr(unit)[:200]}"))
+            res["evaluations"] = 1
+            return res
         return {"harness_error": traceback.format_exc(), "unit": repr(unit)[:500]}
 
 
